@@ -384,3 +384,32 @@ Lemma kicked_message : forall c id user message,
   [mkOut "usermessage" "kicked" id "" (c_id c) user true []
          (if is_empty message then "you have been kicked out" else message) "" "" false].
 Proof. reflexivity. Qed.
+
+(* ------------------------------------------------------------------ *)
+(* The server-controlled fields of a relayed message                   *)
+
+(* The message record [msg] of the model has the fields handleClientMessage
+   reads; "privileged", "time", "permissions", "status", "error" and the
+   other fields a client may put on the wire are not among them: whatever a
+   client claims there cannot influence any step ([step] is a function of
+   the [msg] alone; the `chat` driver sends such fields without writing
+   them to the trace, so that any influence on the implementation is a
+   divergence from the model).  What the relayed message carries in the
+   fields that are not copied from the sender's message: *)
+Lemma relayed_fields : forall c m,
+  let x := chat_out c m in
+  o_priv x = mem "op" (c_perms c) /\
+  o_perms x = [] /\ o_group x = "" /\ o_error x = "" /\ o_locked x = false /\
+  o_id x = (if String.eqb (m_type m) "chat" && is_empty (m_dest m) && is_empty (m_id m)
+            then "?" else m_id m) /\
+  (* ... and the copied ones *)
+  o_type x = m_type m /\ o_kind x = m_kind m /\ o_source x = m_source m /\
+  o_dest x = m_dest m /\ o_user x = m_username m /\ o_value x = value_text (m_value m).
+Proof. intros c m. repeat split. Qed.
+
+(* the privileged flag of everything the step of a permitted member delivers
+   depends on the sender's permissions only: two messages that differ in any
+   field whatsoever are relayed with the same flag *)
+Lemma privileged_independent_of_message : forall c m m',
+  o_priv (chat_out c m) = o_priv (chat_out c m').
+Proof. reflexivity. Qed.
